@@ -66,7 +66,7 @@ func genC06Tree(r *RNG) *N {
 	if r.Chance(1, 3) {
 		return genAllocProgram(r)
 	}
-	cfg := GenCfg{Budget: r.Range(4, 30), Calls: r.Chance(1, 2), Closures: true, Maps: true, AllocOnly: true, SliceCall: true}
+	cfg := GenCfg{Budget: r.Range(4, 30), Calls: r.Chance(1, 2), Closures: true, Maps: true, AllocOnly: true, SliceCall: true, NarrowBounds: true}
 	g := NewGen(r, cfg)
 	switch r.Intn(10) {
 	case 7:
